@@ -4,7 +4,7 @@ namespace sim {
 #if 0
 Plan gen_feat(u64) { return Plan(); } void run_feat(const Plan &) {} void feat_override(Store &, const Fault &) {}
 #endif
-#ifndef HAVE_LZ4
+#if 0
 Plan gen_lz4(u64) { return Plan(); } void run_lz4(const Plan &) {} Plan gen_lz4c(u64) { return Plan(); } void run_lz4c(const Plan &) {} void lz4_override(Store &, const Fault &) {}
 #endif
 #ifndef HAVE_CONC
